@@ -581,7 +581,8 @@ def _order_list(tier):
 def strat_seq(tier):
     nmax = {'quick': 20, 'thorough': 40}[tier]
     one_d = st.sampled_from(FAMS).flatmap(lambda fam: st.fixed_dictionaries({
-        'kind': st.just('1d'), 'fam': st.just(fam), 'ns': _order_list(tier), 'p': fam_params(fam), 'npts': st.integers(1, 9), 'seed': U.seeds}))
+        'kind': st.just('1d'), 'fam': st.just(fam), 'ns': _order_list(tier), 'p': fam_params(fam), 'npts': st.integers(1, 9), 'seed': U.seeds,
+        'pre32': st.booleans()}))
     zern = st.fixed_dictionaries({'kind': st.just('zernike'), 'nms': st.lists(nm_pairs(nmax), min_size=1, max_size=8), 'both_signs': st.booleans(),
                                   'norm': st.booleans(), 'npts': st.integers(1, 9), 'seed': U.seeds})
     q2d = st.fixed_dictionaries({'kind': st.just('q2d'), 'nms': st.lists(st.tuples(st.integers(0, 8), st.integers(-8, 8)).map(list), min_size=1, max_size=7),
@@ -604,6 +605,12 @@ def check_seq(case, ctx):
         seqfn = getattr(P, fam + '_seq')
         x = r_.uniform(lo, hi, npts)
         ctx.label('seq:' + fam, 'gapped' if ns != list(range(ns[0], ns[0] + len(ns))) else 'contiguous', 'from0' if ns[0] == 0 else 'from>0')
+        if case.get('pre32', False):
+            # a single-precision evaluation of the same orders first (same process): it is checked to single precision, and it
+            # must leave nothing behind that degrades the double-precision evaluation that follows
+            ctx.label('after-float32-call')
+            g32 = np.asarray(ctx.call(seqfn, ns, *p, x.astype(np.float32)))
+            U.check_shape(g32, (len(ns), npts), fam + '_seq:float32')
         got = np.asarray(ctx.call(seqfn, ns, *p, x))
         U.check_shape(got, (len(ns), npts), fam + '_seq')
         for k, n in enumerate(ns):
